@@ -14,6 +14,9 @@ array where bytes / str is declared) is offered first: the writer refuses it,
 the caller carries on, and everything read back still is what was written.
 One case in sixteen has an attribute whose single example exceeds 1 MiB (a
 generated 7-element pattern repeated): block sizes of codecs and readers.
+Stage ``widen`` (enumerated, exhaustive over its grid): every (format, declared
+dtype, safely castable narrower dtype) cell with all special values of the
+narrower dtype in one array, for the "narrower dtype" presentations.
 Oracle (round trip): expected = the logical array (C order) cast safely to the
 declared dtype, as little-endian bytes.  fb: returned dtype == declared and
 bytes equal; npz: returned array must be safely castable to the declared dtype
@@ -519,7 +522,59 @@ def run_case(case, ctx):
         dsops.rmtree(root)
 
 
+def enumerate_widen(tier):
+    """Every (format, declared dtype, safely castable narrower dtype) cell
+    once, with ALL special values of the narrower dtype (min/max, -0.0,
+    +-inf, NaNs, subnormals) in one array: who widens a value -- the writer,
+    NumPy, TensorFlow -- decides what happens to subnormals and payloads, and
+    the random stage pairs such a value with the narrower-dtype presentation,
+    the format and the tf.data reader only once in thousands of cases."""
+    cases = []
+    for fmt in ("fb", "npz", "tfrec"):
+        for decl, narrower in NARROWER.items():
+            if decl not in DT[fmt]:
+                continue
+            for src in narrower:
+                specials = FLOAT_SPECIALS.get(src) or int_specials(src)
+                values = "".join(specials)
+                for present in ("narrow", "narrow-first"):
+                    vals = [values, values]
+                    if present == "narrow-first":
+                        wide = FLOAT_SPECIALS.get(decl) or int_specials(decl)
+                        vals[1] = "".join(
+                            (wide * len(specials))[:len(specials)])
+                    cases.append({
+                        "fmt": fmt,
+                        "compression": "",
+                        "eps": 2,
+                        "n": 2,
+                        "attrs": [{
+                            "name": "a0",
+                            "dtype": decl,
+                            "shape": [len(specials)],
+                            "values": vals,
+                            "present": present,
+                            "src_dtype": src,
+                            "tile": 0,
+                        }],
+                        "fp": 1,
+                        "tf": True,
+                        "order": 0,
+                        "bad": [],
+                    })
+    return cases
+
+
 STAGES = [
+    Stage(name="widen",
+          run=run_case,
+          enumerate=enumerate_widen,
+          exhaustive=True,
+          fork=True,
+          rust=True,
+          timeout=150,
+          timeout_violation=hang_is_violation(
+              "value", "writing and reading back a small dataset")),
     Stage(name="roundtrip",
           run=run_case,
           strategy=lambda tier: strategy_case(tier),
